@@ -33,6 +33,7 @@ type World struct {
 	overlay  map[string][]byte
 	loadSecs float64
 	constGlobals map[*ssa.Global]*constGlobal
+	errGlobals map[*ssa.Global]bool
 	constGlobalsUsed map[string]bool
 }
 
